@@ -1,7 +1,7 @@
 """C08 - Compiled linear models are well-formed; no guessed or non-finite constants."""
 from . import common as C, core
 
-PROOF_FILES = ["Proof/AListFacts.v", "Proof/LinFrame.v", "Proof/WellFormed.v"]
+PROOF_FILES = ["Proof/AListFacts.v", "Proof/LinFrame.v", "Proof/WellFormed.v", "Proof/RowNames.v"]
 
 
 def run(ctx):
